@@ -946,3 +946,188 @@ Lemma all_heads_thm : forall (g : graph), wf g ->
 Proof.
   intros g W. split; [now apply all_heads_pos_ok|]. intros x. now apply all_heads_in.
 Qed.
+
+(** * the segment stack is the flat index *)
+Lemma num_commits_flat st : num_commits st = length (flat st).
+Proof.
+  unfold num_commits, flat. induction st as [|seg st IH]; simpl; [reflexivity|].
+  rewrite concat_app, app_length, <- IH. simpl. rewrite app_nil_r. lia.
+Qed.
+
+Lemma flat_cons seg st : flat (seg :: st) = flat st ++ seg.
+Proof. unfold flat. simpl. rewrite concat_app. simpl. now rewrite app_nil_r. Qed.
+
+Lemma entry_by_pos_flat st : forall pos, entry_by_pos st pos = nth_error (flat st) pos.
+Proof.
+  induction st as [|seg st IH]; intros pos; simpl.
+  - unfold flat. simpl. now destruct pos.
+  - rewrite flat_cons, num_commits_flat. destruct (Nat.leb_spec (length (flat st)) pos) as [L|L].
+    + now rewrite nth_error_app2.
+    + rewrite nth_error_app1 by assumption. apply IH.
+Qed.
+
+Lemma find_local_spec id seg : forall i l, find_local id seg i = Some l ->
+  i <= l /\ nth_error seg (l - i) = Some (fst (nth (l - i) seg (0%N, [])), snd (nth (l - i) seg (0%N, [])))
+  /\ fst (nth (l - i) seg (0%N, [])) = id /\ l - i < length seg.
+Proof.
+  induction seg as [|e r IH]; intros i l; simpl; [discriminate|].
+  destruct (N.eqb_spec (fst e) id) as [E|N].
+  - intros H. injection H as <-. rewrite Nat.sub_diag. simpl. repeat split; try lia; try assumption.
+    now destruct e.
+  - intros H. apply IH in H. destruct H as (H1 & H2 & H3 & H4).
+    replace (l - i) with (S (l - S i)) by lia. simpl. repeat split; try lia; assumption.
+Qed.
+
+Lemma find_local_none id seg : forall i, find_local id seg i = None -> forall e, In e seg -> fst e <> id.
+Proof.
+  induction seg as [|e r IH]; intros i H e' He'; [contradiction|]. simpl in H.
+  destruct (N.eqb_spec (fst e) id) as [E|N]; [discriminate|].
+  destruct He' as [<-|He']; [assumption|]. eapply IH; eassumption.
+Qed.
+
+(** commit_id_to_pos returns a position whose flat entry carries that id; [None] means the id
+    is nowhere in the index *)
+Lemma commit_id_to_pos_some st id : forall p, commit_id_to_pos st id = Some p ->
+  p < length (flat st) /\ exists ps, nth_error (flat st) p = Some (id, ps).
+Proof.
+  induction st as [|seg st IH]; intros p; simpl; [discriminate|].
+  rewrite flat_cons, app_length. destruct (find_local id seg 0) as [l|] eqn:F.
+  - intros H. injection H as <-. apply find_local_spec in F. destruct F as (_ & F2 & F3 & F4).
+    rewrite Nat.sub_0_r in *. rewrite num_commits_flat. split; [lia|].
+    rewrite nth_error_app2 by lia. replace (l + length (flat st) - length (flat st)) with l by lia.
+    rewrite F2, F3. eauto.
+  - intros H. destruct (IH p H) as [L (ps & E)]. split; [lia|]. exists ps.
+    now rewrite nth_error_app1.
+Qed.
+
+Lemma commit_id_to_pos_none st id : commit_id_to_pos st id = None ->
+  forall e, In e (flat st) -> fst e <> id.
+Proof.
+  induction st as [|seg st IH]; simpl; intros H e He; [now unfold flat in He|].
+  rewrite flat_cons in He. destruct (find_local id seg 0) eqn:F; [discriminate|].
+  apply in_app_or in He. destruct He as [He|He]; [now apply IH|].
+  eapply find_local_none; eassumption.
+Qed.
+
+Lemma all_some_spec {A} (l : list (option A)) xs : all_some l = Some xs -> l = map Some xs.
+Proof.
+  revert xs. induction l as [|o l IH]; intros xs; simpl.
+  - intros H. injection H as <-. reflexivity.
+  - destruct o as [x|]; [|discriminate]. destruct (all_some l) as [ys|]; [|discriminate].
+    intros H. injection H as <-. simpl. f_equal. now apply IH.
+Qed.
+
+(** add_commit_data appends one entry to the flat index (or leaves it alone when the id is
+    known); every recorded parent position is an existing, smaller position: the index
+    invariant [wf] is preserved *)
+Lemma add_commit_data_flat st id pids st' : add_commit_data st id pids = Some st' ->
+  (flat st' = flat st /\ commit_id_to_pos st id <> None) \/
+  (exists ps, flat st' = flat st ++ [(id, ps)] /\ (forall p, In p ps -> p < length (flat st)) /\
+              map (commit_id_to_pos st) pids = map Some ps).
+Proof.
+  unfold add_commit_data. destruct (commit_id_to_pos st id) eqn:E.
+  - intros H. injection H as <-. left. split; [reflexivity|discriminate].
+  - destruct (all_some (map (commit_id_to_pos st) pids)) as [ps|] eqn:A; [|discriminate].
+    apply all_some_spec in A. intros H. right. exists ps. split; [|split; [|assumption]].
+    + destruct st as [|top rest]; injection H as <-.
+      * reflexivity.
+      * rewrite !flat_cons. now rewrite app_assoc.
+    + intros p Hp. assert (Hin : In (Some p) (map (commit_id_to_pos st) pids)).
+      { rewrite A. now apply in_map. }
+      apply in_map_iff in Hin. destruct Hin as (pid & Hpid & _).
+      now apply commit_id_to_pos_some in Hpid.
+Qed.
+
+Lemma add_commit_data_wf st id pids st' :
+  wf (flat_graph st) -> add_commit_data st id pids = Some st' -> wf (flat_graph st').
+Proof.
+  intros W H. destruct (add_commit_data_flat _ _ _ _ H) as [[E _]|(ps & E & B & _)];
+    unfold flat_graph in *; rewrite E; [assumption|].
+  rewrite map_app. simpl. apply wf_snoc. split; [assumption|]. intros p Hp.
+  rewrite map_length. now apply B.
+Qed.
+
+(** squashing never changes the flat index, and on sizes it is [squash_sizes] *)
+Lemma squash_segs_flat : forall files top, flat (squash_segs top files) = flat (top :: files).
+Proof.
+  induction files as [|f rest IH]; intros top; cbn [squash_segs]; [reflexivity|].
+  destruct (2 * length top <? length f); [reflexivity|].
+  rewrite IH, !flat_cons. now rewrite app_assoc.
+Qed.
+
+Lemma squash_segs_sizes : forall files top,
+  map (@length sentry) (squash_segs top files) = squash_sizes (length top) (map (@length sentry) files).
+Proof.
+  induction files as [|f rest IH]; intros top; cbn [squash_segs squash_sizes map]; [reflexivity|].
+  destruct (2 * length top <? length f); [reflexivity|].
+  rewrite IH, app_length. f_equal. lia.
+Qed.
+
+Lemma squash_sizes_sum : forall files n, list_sum (squash_sizes n files) = n + list_sum files.
+Proof.
+  induction files as [|f rest IH]; intros n; cbn [squash_sizes]; [simpl; lia|].
+  destruct (2 * n <? f); [simpl; lia|]. rewrite IH. simpl. lia.
+Qed.
+
+Lemma squash_sizes_top : forall files n x y r, squash_sizes n files = x :: y :: r -> 2 * x < y.
+Proof.
+  induction files as [|f rest IH]; intros n x y r; cbn [squash_sizes]; [discriminate|].
+  destruct (Nat.ltb_spec (2 * n) f) as [L|L].
+  - intros H. injection H as <- <- _. assumption.
+  - apply IH.
+Qed.
+
+Lemma squash_sizes_head : forall files n x r, squash_sizes n files = x :: r -> n <= x.
+Proof.
+  induction files as [|f rest IH]; intros n x r; cbn [squash_sizes].
+  - intros H. injection H. lia.
+  - destruct (2 * n <? f); [intros H; injection H; lia|]. intros H. apply IH in H. lia.
+Qed.
+
+(** the checker's meaning for a recorded transaction *)
+Lemma level_corr_ok o : level_corr o = true -> level_ok o = true.
+Proof.
+  destruct o as [[before added] after]. unfold level_corr, level_ok.
+  intros H. apply lnat_eqb_spec in H. subst after.
+  assert (S : list_sum (rev (saved_levels added (rev before))) = list_sum before + added).
+  { assert (R : forall l, list_sum (rev l) = list_sum l).
+    { induction l as [|x l IH]; simpl; [reflexivity|]. rewrite list_sum_app, IH. simpl. lia. }
+    rewrite R. unfold saved_levels.
+    pose proof (squash_sizes_sum (rev before) added) as E. rewrite R in E.
+    destruct (squash_sizes added (rev before)) as [|[|x] [|y r]] eqn:Q; simpl in *; lia. }
+  rewrite S, Nat.eqb_refl, rev_involutive. simpl. unfold saved_levels.
+  destruct (squash_sizes added (rev before)) as [|x [|y r]] eqn:Q; try reflexivity.
+  - destruct x; reflexivity.
+  - pose proof (squash_sizes_top _ _ _ _ _ Q) as T. destruct x as [|x].
+    + (* an empty mutable segment was dropped: nothing was added *)
+      assert (added = 0) by (apply squash_sizes_head in Q; lia).
+      subst added. destruct r as [|z r']; [reflexivity|]. rewrite orb_true_r. reflexivity.
+    + apply orb_true_iff. left. apply Nat.ltb_lt. lia.
+Qed.
+
+Lemma abs_flat_thm :
+  (forall st pos, entry_by_pos st pos = nth_error (flat st) pos) /\
+  (forall st id p, commit_id_to_pos st id = Some p ->
+     p < length (flat st) /\ exists ps, nth_error (flat st) p = Some (id, ps)) /\
+  (forall st id, commit_id_to_pos st id = None -> forall e, In e (flat st) -> fst e <> id) /\
+  (forall st id pids st', add_commit_data st id pids = Some st' ->
+     (flat st' = flat st /\ commit_id_to_pos st id <> None) \/
+     (exists ps, flat st' = flat st ++ [(id, ps)] /\ (forall p, In p ps -> p < length (flat st)) /\
+                 map (commit_id_to_pos st) pids = map Some ps)) /\
+  (forall st id pids st', wf (flat_graph st) -> add_commit_data st id pids = Some st' ->
+     wf (flat_graph st')) /\
+  (forall files top, flat (squash_segs top files) = flat (top :: files) /\
+     map (@length sentry) (squash_segs top files) =
+     squash_sizes (length top) (map (@length sentry) files)).
+Proof.
+  split; [exact entry_by_pos_flat|]. split; [exact commit_id_to_pos_some|].
+  split; [exact commit_id_to_pos_none|]. split; [exact add_commit_data_flat|].
+  split; [exact add_commit_data_wf|]. intros files top.
+  split; [apply squash_segs_flat|apply squash_segs_sizes].
+Qed.
+
+Lemma squash_thm :
+  (forall files n, list_sum (squash_sizes n files) = n + list_sum files) /\
+  (forall files n x y r, squash_sizes n files = x :: y :: r -> 2 * x < y) /\
+  (forall o, level_corr o = true -> level_ok o = true).
+Proof. split; [exact squash_sizes_sum|]. split; [exact squash_sizes_top|exact level_corr_ok]. Qed.
